@@ -228,7 +228,7 @@ func genC15(seed uint64, tier, statsPath string) {
 		fmt.Fprintf(out, "parse %s\n", hexOf(text))
 	}
 	// 1. the repository's own schema files
-	filepath.Walk("/repo", func(path string, info os.FileInfo, err error) error {
+	filepath.Walk(hx.RepoDir(), func(path string, info os.FileInfo, err error) error {
 		if err == nil && !info.IsDir() && strings.HasSuffix(path, ".spec") {
 			if b, err := os.ReadFile(path); err == nil {
 				emit("corpus", string(b))
